@@ -310,6 +310,18 @@ Fixpoint dops_ok (total : N) (ops : list dop) : bool :=
 Fixpoint n_dcreates (ops : list dop) : N :=
   match ops with [] => 0%N | DCreate _ :: r => N.succ (n_dcreates r) | _ :: r => n_dcreates r end.
 
+(* a connection is served only after ITS OWN proof: never while the proof is pending, and afterwards
+   only if the remote was entitled on this connection — whatever circuit it announces *)
+Fixpoint spec_circuit (conns : list (N * ttype * remote)) (obs : list Z) : bool :=
+  match conns, obs with
+  | [], [] => true
+  | (_, t, r) :: cs, before :: _ :: after :: obs' =>
+      Z.eqb before 0 &&
+      (if Z.eqb after 0 then true else match entitled 0 t r with Some _ => true | None => false end) &&
+      spec_circuit cs obs'
+  | _, _ => false
+  end.
+
 Definition spec_C19 (c : c19case) (obs : list Z) : bool :=
   match c with
   | CHandshake ch _ t r _ => spec_handshake ch t r obs
